@@ -36,13 +36,14 @@ Qed.
 
 (* selectors used by the view layer: a..b with unsigned bounds, and .. *)
 Definition usel (s : sel) : Prop :=
-  match s with Rng a b => (0 <= a)%Z /\ (0 <= b)%Z | Full => True | _ => False end.
+  match s with Rng a b => (0 <= a)%Z /\ (0 <= b)%Z | To b => (0 <= b)%Z | Full => True | _ => False end.
 
 Lemma resolve_usel dim s : (Z.of_nat dim <= i64_max)%Z -> usel s -> resolve dim s = py_resolve dim s.
 Proof.
-  intros Hd Hs. unfold resolve, py_resolve. destruct s as [| a b | | | | |]; try contradiction.
+  intros Hd Hs. unfold resolve, py_resolve. destruct s as [| a b | | b | | |]; try contradiction.
   - cbn [view_bounds]. destruct Hs as [Ha Hb].
     rewrite rb_incl_excl by (unfold i64_min in *; lia). reflexivity.
+  - cbn [view_bounds]. cbn in Hs. rewrite rb_unb_excl by (unfold i64_min in *; lia). reflexivity.
   - cbn [view_bounds]. rewrite rb_full by lia. reflexivity.
 Qed.
 
@@ -59,6 +60,9 @@ Proof.
 Qed.
 
 Lemma usel_rng (a b : N) : usel (Rng (Z.of_N a) (Z.of_N b)).
+Proof. cbn. lia. Qed.
+
+Lemma usel_to (b : N) : usel (To (Z.of_N b)).
 Proof. cbn. lia. Qed.
 
 Lemma rep_apply_to H W sh w t :
@@ -184,22 +188,22 @@ Section Surface.
                                 | Some f =>
                                     let* d' := erase (match d with
                                       | Hor => view sub (resolve (sh_height sub) Full)
-                                                 (resolve (sh_width sub) (Rng (Z.of_N (l_col t)) (Z.of_N (l_col t + l_ww t))))
-                                      | Ver => view sub (resolve (sh_height sub) (Rng (Z.of_N (l_row t)) (Z.of_N (l_row t + l_hh t))))
+                                                 (resolve (sh_width sub) (Rng (Z.of_N (l_col t)) (Z.of_N (sat_addN (l_col t) (l_ww t)))))
+                                      | Ver => view sub (resolve (sh_height sub) (Rng (Z.of_N (l_row t)) (Z.of_N (sat_addN (l_row t) (l_hh t)))))
                                                  (resolve (sh_width sub) Full)
                                       end) (r_data s) f in Ok (mkR d' (r_log s))
                                 end) = Ok s1 /\ Frame sub (r_data s) (r_data s1)).
       { destruct fc as [f|]; [|exists s; split; [reflexivity|apply frame_refl]].
         assert (Harea : exists area warea, area = (match d with
                     | Hor => view sub (resolve (sh_height sub) Full)
-                               (resolve (sh_width sub) (Rng (Z.of_N (l_col t)) (Z.of_N (l_col t + l_ww t))))
-                    | Ver => view sub (resolve (sh_height sub) (Rng (Z.of_N (l_row t)) (Z.of_N (l_row t + l_hh t))))
+                               (resolve (sh_width sub) (Rng (Z.of_N (l_col t)) (Z.of_N (sat_addN (l_col t) (l_ww t)))))
+                    | Ver => view sub (resolve (sh_height sub) (Rng (Z.of_N (l_row t)) (Z.of_N (sat_addN (l_row t) (l_hh t)))))
                                (resolve (sh_width sub) Full)
                     end) /\ Rep H W area warea /\ Sub area sub).
         { destruct d.
-          - destruct (rep_subview H W sub wsub Full (Rng (Z.of_N (l_col t)) (Z.of_N (l_col t + l_ww t))) Hmax Hsub I (usel_rng _ _))
+          - destruct (rep_subview H W sub wsub Full (Rng (Z.of_N (l_col t)) (Z.of_N (sat_addN (l_col t) (l_ww t)))) Hmax Hsub I (usel_rng _ _))
               as (w' & R & S). eauto.
-          - destruct (rep_subview H W sub wsub (Rng (Z.of_N (l_row t)) (Z.of_N (l_row t + l_hh t))) Full Hmax Hsub (usel_rng _ _) I)
+          - destruct (rep_subview H W sub wsub (Rng (Z.of_N (l_row t)) (Z.of_N (sat_addN (l_row t) (l_hh t)))) Full Hmax Hsub (usel_rng _ _) I)
               as (w' & R & S). eauto. }
         destruct Harea as (area & warea & <- & Rarea & Sarea).
         destruct (erase_ok area warea (r_data s) f Rarea Hlen) as (d' & -> & Fe). cbn [bind].
@@ -264,7 +268,7 @@ Section Surface.
       destruct (render vc v k (apply_to sh t) s) as [s'| | |]; cbn in *; auto. eapply frame_sub; eauto.
     - cbn. apply frame_refl.
     - (* dynamic *)
-      destruct (l_data t) as [| |c]; try exact I. destruct (l_kids t) as [|k ks]; [exact I|].
+      destruct (l_data t) as [| |c|]; try exact I. destruct (l_kids t) as [|k ks]; [exact I|].
       specialize (H0 c k (apply_to sh t) wsub s Rsub Hlen).
       destruct (render vc (build c) k (apply_to sh t) s) as [s'| | |]; cbn in *; auto. eapply frame_sub; eauto.
     - apply lift_d with (sub := apply_to sh t); auto. eapply fill_cells_safe; eauto.
@@ -287,5 +291,70 @@ Section Surface.
     - (* probe *)
       pose proof (fill_cells_safe (apply_to sh t) wsub (r_data s) (mkCell face0 (KChar (61440 + id))) Rsub Hlen) as Hf.
       destruct (fill_cells _ _ _) as [d1| | |]; cbn in *; auto. eapply frame_sub; eauto.
+    - (* surface view *)
+      match goal with |- context [Shape.view (apply_to sh t) (resolve _ (To ?a)) (resolve _ (To ?b))] =>
+        destruct (rep_subview H W (apply_to sh t) wsub (To a) (To b) Hmax Rsub ltac:(cbn; lia) ltac:(cbn; lia))
+          as (warea & Rarea & Sarea) end.
+      destruct (fill_with_safe _ warea (r_data s) (fun _ _ old => cell_overlay old cl) Rarea Hlen) as (d1 & -> & F1).
+      cbn. eapply frame_sub; [exact Ssub|]. eapply frame_sub; eauto.
+    - (* image as half blocks *)
+      match goal with |- context [fill_with (apply_to sh t) (r_data s) ?f] =>
+        destruct (fill_with_safe (apply_to sh t) wsub (r_data s) f Rsub Hlen) as (d1 & -> & F1) end.
+      cbn. eapply frame_sub; eauto.
+    - cbn. apply frame_refl.
+    - (* cached view *)
+      destruct (l_data t); try (cbn; apply frame_refl).
+      destruct (l_kids t) as [|k ks]; [exact I|].
+      specialize (IHv k (apply_to sh t) wsub s Rsub Hlen).
+      destruct (render vc v k (apply_to sh t) s) as [s'| | |]; cbn in *; auto. eapply frame_sub; eauto.
+  Qed.
+
+  (* every leaf view changes the slice only inside the rectangle its layout node records
+     (apply_to sh t, which PaintProofs.rep_apply_win identifies as a window of the canvas) *)
+  Definition is_leaf (v : vtree) : bool :=
+    match v with
+    | VText _ _ | VStr _ | VScrollBar _ _ _ _ _ | VNone | VFill _ | VUnit | VImage _ _ _ | VGlyph _ _ _ _ | VProbe _ _ _
+    | VSurface _ _ _ | VImageAscii _ _ _ => true
+    | _ => false
+    end.
+
+  Lemma lift_frame (o : outcome (list ccell)) log sub d s' :
+    SafeD sub d o -> (let* d' := o in Ok (mkR d' log)) = Ok s' -> Frame sub d (r_data s').
+  Proof. destruct o as [d'| | |]; cbn; intros Hs E; try discriminate. injection E as <-. exact Hs. Qed.
+
+  Theorem leaf_confined v t sh w s s' : is_leaf v = true -> Rep H W sh w -> H * W <= length (r_data s) ->
+    render vc v t sh s = Ok s' -> Frame (apply_to sh t) (r_data s) (r_data s').
+  Proof.
+    intros Hl Hrep Hlen. destruct (rep_apply_to H W sh w t Hmax Hrep) as (wsub & Rsub & Ssub).
+    destruct v; try discriminate; cbn [render].
+    - apply lift_frame. eapply write_cells_safe; eauto.
+    - apply lift_frame. eapply write_cells_safe; eauto.
+    - destruct (major dir (l_hh t) (l_ww t) =? 0)%N; [intros [= <-]; apply frame_refl|].
+      destruct (scroll_thumb _ _ _ _) as [size offset]. apply lift_frame. eapply write_cells_safe; eauto.
+    - intros [= <-]. apply frame_refl.
+    - apply lift_frame. eapply fill_cells_safe; eauto.
+    - intros [= <-]. apply frame_refl.
+    - unfold get. destruct ((sh_height (apply_to sh t) <=? 0) || (sh_width (apply_to sh t) <=? 0)) eqn:Hout;
+        [intros [= <-]; apply frame_refl|].
+      destruct (nth_error (r_data s) (offset (apply_to sh t) 0 0)) as [old|]; [|intros [= <-]; apply frame_refl].
+      destruct (image_cells vc _ _) as [h' w']. intros [= <-]. cbn.
+      apply orb_false_iff in Hout as [H1 H2]. apply Nat.leb_gt in H1, H2. apply frame_upd; assumption.
+    - destruct (has_glyphs (v_r vc)).
+      + unfold get. destruct ((sh_height (apply_to sh t) <=? 0) || (sh_width (apply_to sh t) <=? 0)) eqn:Hout;
+          [intros [= <-]; apply frame_refl|].
+        destruct (nth_error (r_data s) (offset (apply_to sh t) 0 0)) as [old|]; intros [= <-]; [|apply frame_refl].
+        cbn. apply orb_false_iff in Hout as [H1 H2]. apply Nat.leb_gt in H1, H2. apply frame_upd; assumption.
+      + apply lift_frame. eapply write_cells_safe; eauto.
+    - pose proof (fill_cells_safe (apply_to sh t) wsub (r_data s) (mkCell face0 (KChar (61440 + id))) Rsub Hlen) as Hf.
+      destruct (fill_cells _ _ _) as [d1| | |]; cbn in *; try discriminate. intros [= <-]. exact Hf.
+    - match goal with |- context [Shape.view (apply_to sh t) (resolve _ (To ?a)) (resolve _ (To ?b))] =>
+        destruct (rep_subview H W (apply_to sh t) wsub (To a) (To b) Hmax Rsub ltac:(cbn; lia) ltac:(cbn; lia))
+          as (warea & Rarea & Sarea) end.
+      match goal with |- context [fill_with ?area (r_data s) ?f] =>
+        destruct (fill_with_safe area warea (r_data s) f Rarea Hlen) as (d1 & -> & F1) end.
+      cbn. intros [= <-]. cbn. eapply frame_sub; eauto.
+    - match goal with |- context [fill_with (apply_to sh t) (r_data s) ?f] =>
+        destruct (fill_with_safe (apply_to sh t) wsub (r_data s) f Rsub Hlen) as (d1 & -> & F1) end.
+      cbn. intros [= <-]. exact F1.
   Qed.
 End Surface.
